@@ -35,7 +35,7 @@ Definition ctc_str (c : ctc) : string := ("(" ++ c_name c ++ ") " ++ node_str (c
 Definition is_abstract_truthy (f : feature) : bool :=
   match f_abstract (info f) with
   | VNone => false | VBool b => b | VInt z => negb (z =? 0)%Z | VStr s => negb (String.eqb s "")
-  | VFloat r => negb (String.eqb r "0.0") | VList l => negb (Nat.eqb (List.length l) 0)
+  | VFloat r => negb (String.eqb r "0.0" || String.eqb r "-0.0") | VList l => negb (Nat.eqb (List.length l) 0)
   | VMap kv => negb (Nat.eqb (List.length kv) 0)
   end.
 
